@@ -19,6 +19,17 @@ def Child.peerView (c : Child) : Bytes × Bytes × Nat := (c.outSpi, c.inSpi, c.
 /-- the CHILD_SAs of the two ends are mirror images of each other (as multisets) -/
 def Mirror (ka kb : List Child) : Prop := (ka.map Child.view).Perm (kb.map Child.peerView)
 
+/-- the rest of what a CHILD_SA is for the kernel: suite, mode, selectors — as its holder sees it, and as the other end must -/
+def Child.rich (c : Child) : List Transform × Nat × List TS × List TS := (c.proposal.transforms, c.mode, c.tsi, c.tsr)
+def Child.peerRich (c : Child) : List Transform × Nat × List TS × List TS := (c.proposal.transforms, c.mode, c.tsr, c.tsi)
+
+/-- whenever two records are images of each other as to SPIs and protocol, they are as to suite, mode and selectors -/
+def Paired (ka kb : List Child) : Prop := ∀ ca ∈ ka, ∀ cb ∈ kb, ca.view = cb.peerView → ca.rich = cb.peerRich
+
+theorem rich_symm {x y : Child} (h : x.rich = y.peerRich) : y.rich = x.peerRich := by
+  simp only [Child.rich, Child.peerRich, Prod.mk.injEq] at h ⊢
+  exact ⟨h.1.symm, h.2.1.symm, h.2.2.2.symm, h.2.2.1.symm⟩
+
 theorem Mirror.symm {ka kb : List Child} (h : Mirror ka kb) : Mirror kb ka := by
   unfold Mirror at *
   have h2 := (h.map (fun t : Bytes × Bytes × Nat => (t.2.1, t.1, t.2.2))).symm
@@ -275,6 +286,12 @@ theorem view_eq_peerView_symm {x y : Child} (h : x.view = y.peerView) : y.view =
   simp only [Child.view, Child.peerView, Prod.mk.injEq] at h ⊢
   exact ⟨h.2.1.symm, h.1.symm, h.2.2.symm⟩
 
+theorem Paired.symm {ka kb : List Child} (h : Paired ka kb) : Paired kb ka :=
+  fun cb hb ca ha hv => rich_symm (h ca ha cb hb (view_eq_peerView_symm hv))
+
+theorem Paired.remove {ka kb : List Child} (h : Paired ka kb) (x y : Child) : Paired (removeKid ka x) (removeKid kb y) :=
+  fun ca ha cb hb hv => h ca (List.mem_of_mem_eraseP ha) cb (List.mem_of_mem_eraseP hb) hv
+
 /-- crossing deletes of the same CHILD_SA: each end removes it — and its kernel SAs — exactly once, when the other end's request
     arrives; the replies find nothing left to do; both ends are ESTABLISHED again and mirrored -/
 theorem crossingDeleteExchange_eq (ca cb : Child) (a b : HSt)
@@ -356,6 +373,7 @@ structure Agree (a b : HSt) : Prop where
   ndb : (b.me.ext.kids.map Child.inSpi).Nodup
   protoa : ∀ c ∈ a.me.ext.kids, c.proposal.proto = 2 ∨ c.proposal.proto = 3
   protob : ∀ c ∈ b.me.ext.kids, c.proposal.proto = 2 ∨ c.proposal.proto = 3
+  paired : Paired a.me.ext.kids b.me.ext.kids
 
 inductive DelOp where
   | byA (i : Nat)      -- `a` deletes its i-th CHILD_SA (hard expiry at `a`)
@@ -383,18 +401,19 @@ def delRun (ab : HSt × HSt) : List DelOp → Option (HSt × HSt)
     | none => none
 
 theorem Agree.symm {a b : HSt} (h : Agree a b) : Agree b a :=
-  ⟨h.stb, h.sta, h.mirror.symm, h.ndb, h.nda, h.protob, h.protoa⟩
+  ⟨h.stb, h.sta, h.mirror.symm, h.ndb, h.nda, h.protob, h.protoa, h.paired.symm⟩
 
 theorem Agree.deleteExchange {a b : HSt} (h : Agree a b) (c : Child) (hc : c ∈ a.me.ext.kids) :
     ∃ a2 b1, deleteExchange c a b = some (a2, b1) ∧ Agree a2 b1 := by
   obtain ⟨a2, b1, cb, he, hcb, hv, ka, kb, sa, sb, _, _⟩ :=
     deleteExchange_eq c a b h.sta (by rw [h.stb]; decide) h.mirror h.nda hc (h.protoa c hc)
-  refine ⟨a2, b1, he, sa, sb.trans h.stb, ?_, ?_, ?_, ?_, ?_⟩
+  refine ⟨a2, b1, he, sa, sb.trans h.stb, ?_, ?_, ?_, ?_, ?_, ?_⟩
   · rw [ka, kb]; exact h.mirror.remove (view_nodup_of_inSpi h.nda) c cb hc hcb hv
   · rw [ka]; exact removeKid_nodup _ _ h.nda
   · rw [kb]; exact removeKid_nodup _ _ h.ndb
   · intro e he; rw [ka] at he; exact h.protoa e (mem_of_mem_removeKid he)
   · intro e he; rw [kb] at he; exact h.protob e (mem_of_mem_removeKid he)
+  · rw [ka, kb]; exact h.paired.remove _ _
 
 theorem Agree.delStep {a b : HSt} (h : Agree a b) (op : DelOp) : ∃ a' b', delStep (a, b) op = some (a', b') ∧ Agree a' b' := by
   cases op with
@@ -419,12 +438,13 @@ theorem Agree.delStep {a b : HSt} (h : Agree a b) (op : DelOp) : ∃ a' b', delS
       obtain ⟨cb, hk, hcb, hv⟩ := h.mirror.lookup h.nda ca hca
       obtain ⟨a3, b3, he, ka, kb, sa, sb, _, _⟩ :=
         crossingDeleteExchange_eq ca cb a b h.sta h.stb h.mirror h.nda h.ndb hca hcb hv (h.protoa ca hca)
-      refine ⟨a3, b3, by simp only [hk]; exact he, sa, sb, ?_, ?_, ?_, ?_, ?_⟩
+      refine ⟨a3, b3, by simp only [hk]; exact he, sa, sb, ?_, ?_, ?_, ?_, ?_, ?_⟩
       · rw [ka, kb]; exact h.mirror.remove (view_nodup_of_inSpi h.nda) ca cb hca hcb hv
       · rw [ka]; exact removeKid_nodup _ _ h.nda
       · rw [kb]; exact removeKid_nodup _ _ h.ndb
       · intro e he; rw [ka] at he; exact h.protoa e (mem_of_mem_removeKid he)
       · intro e he; rw [kb] at he; exact h.protob e (mem_of_mem_removeKid he)
+      · rw [ka, kb]; exact h.paired.remove _ _
 
 theorem Agree.delRun {a b : HSt} (h : Agree a b) (ops : List DelOp) : ∃ a' b', delRun (a, b) ops = some (a', b') ∧ Agree a' b' := by
   induction ops generalizing a b with
